@@ -294,20 +294,28 @@ SendReady(t) ==
 RecvReady(t) ==
   /\ call[t] # NULL /\ call[t].op = "recv"
   /\ recvQ # <<>> \/ sclosed \/ (call[t].due >= 0 /\ now >= call[t].due)
-\* The receive queue length is changed while nothing is queued or held by a receiver (the drivers change it only
-\* then; what a resize does to queued messages is not specified here).  Calls that are waiting for a message keep
-\* waiting with the deadline they started with: a deadline is measured from the call, whatever is reconfigured
-\* meanwhile.  In XPAIR, XPAIR1 and XREQ the one "size changed" signal serves both queues and a Send that is waiting for
-\* room takes it as "resize discards": it returns success and its message is dropped (as the code has it; the
-\* statements say nothing about messages under way when a queue length is changed - modelled, not reported).
+\* The receive queue length is changed: a new, empty queue replaces the old one.  What was queued stays behind in the
+\* old queue (lost).  A message a receiver goroutine holds because the old queue was full is discarded in XPAIR,
+\* XPAIR1, XREQ, XSURVEYOR, XREP and XRESPONDENT ("resize discards" - the receiver goes back to reading) and kept for
+\* the new queue in XSTAR.  For XPULL (migrates the old queue while receivers already fill the new one) and XBUS (a
+\* receiver holding a message leaves and closes its connection: the recorded finding, which has its own scenario)
+\* the change is only described for the case that nothing is queued or held.  Calls that are waiting for a message
+\* keep waiting with the deadline they started with.  In XPAIR, XPAIR1 and XREQ the one "size changed" signal serves
+\* both queues and a Send that is waiting for room takes it as "resize discards" too: it returns success and its
+\* message is dropped.  (As the code has it; the statements say nothing about messages under way when a queue length
+\* is changed - modelled, not reported.)
 ResizeDropsSend == Proto \in {"xpair", "xpair1", "xreq"}
+ResizeDropsHeld == Proto \in {"xpair", "xpair1", "xreq", "xsurveyor", "xrep", "xrespondent"}
 SetRQ(n) ==
-  /\ n >= 0 /\ recvQ = <<>> /\ \A p \in Pipe : rxHold[p] = NULL
+  /\ n >= 0
+  /\ Proto \in {"xpull", "xbus"} => (recvQ = <<>> /\ \A p \in Pipe : rxHold[p] = NULL)
   /\ opt' = [opt EXCEPT !.rq = n]
+  /\ recvQ' = <<>>
+  /\ rxHold' = IF ResizeDropsHeld THEN [p \in Pipe |-> NULL] ELSE rxHold
   /\ call' = IF ResizeDropsSend
                THEN [t \in Thread |-> IF call[t] # NULL /\ call[t].op = "send" THEN [call[t] EXCEPT !.rz = TRUE] ELSE call[t]]
                ELSE call
-  /\ UNCHANGED <<now, sockVars, sendVars, recvVars, histVars>>
+  /\ UNCHANGED <<now, sockVars, sendVars, histVars>>
 
 CanInternal ==
   \/ \E t \in Thread : SendReady(t) \/ RecvReady(t)
